@@ -202,6 +202,8 @@ class C12Gen:
     def cond(self, depth=0):
         rng = self.rng
         r = rng.random()
+        if depth >= 1 and r < 0.04:
+            return [rng.choice(["true", "false"])]
         if depth >= 2 or r < 0.6:
             return self.atom()
         if r < 0.75:
